@@ -12,7 +12,10 @@ R = dict(mode='real', validate=False)
 OBLS = [
     Obl('C11.1/plane_aligned', H, 'obl_c11_plane_aligned', 'B', 'PlaneAligned: safety >= 0 and <= distance along every ray', timeout=120, **R),
     Obl('C11.1/cyl_centered', H, 'obl_c11_cyl_centered', 'B', 'CylCentered: safety >= 0 and <= distance along every ray', timeout=300, **R),
-    Obl('C11.2', H, 'obl_c11_not_simple', 'B', 'CylAligned, ConeAligned, SimpleQuadric, GeneralQuadric (no simple safety): safety is exactly 0', timeout=120, **R),
+    Obl('C11.2/cyl', H, 'obl_c11_not_simple_cyl', 'B', 'CylAligned (no simple safety): safety is exactly 0', timeout=60, **R),
+    Obl('C11.2/cone', H, 'obl_c11_not_simple_cone', 'B', 'ConeAligned (no simple safety): safety is exactly 0', timeout=60, **R),
+    Obl('C11.2/sq', H, 'obl_c11_not_simple_sq', 'B', 'SimpleQuadric (no simple safety): safety is exactly 0', timeout=60, **R),
+    Obl('C11.2/gq', H, 'obl_c11_not_simple_gq', 'B', 'GeneralQuadric (no simple safety): safety is exactly 0', timeout=60, **R),
     Obl('C11.1/plane', H, 'obl_c11_plane', 'B', 'Plane: safety conservative', timeout=1500, tier='thorough', **R),
     Obl('C11.1/sphere_centered', H, 'obl_c11_sphere_centered', 'B', 'SphereCentered: safety conservative', timeout=1500, tier='thorough', **R),
     Obl('C11.1/sphere', H, 'obl_c11_sphere', 'B', 'Sphere: safety conservative', timeout=1500, tier='thorough', **R),
